@@ -719,8 +719,16 @@ class history {
       if (s.halt_after != static_cast<std::size_t>(-1) && got.size() >= s.halt_after) { halted = true; return true; }
       return false;
     };
-    vm::alloc_tracker::scoped_ignore ig;  // iterator key buffers may allocate
-    call_scan(s, fn, a, b);
+    const auto scratch0 = vm::alloc_tracker::get().ignored_live();
+    {
+      vm::alloc_tracker::scoped_ignore ig;  // iterator key buffers may allocate
+      call_scan(s, fn, a, b);
+    }
+    // ... but whatever a scan allocates for itself must be returned when it returns (C10: bytes held are a function of the key set)
+    if (vm::alloc_tracker::get().ignored_live() != scratch0)
+      fail("C10", "scan/scratch-memory-not-returned", "a scan returned while still holding memory it allocated for itself (iterator buffers)",
+           json::object().set("scan", s.to_json()).set("blocks", static_cast<u64>(vm::alloc_tracker::get().ignored_live() - scratch0)).set("delivered", static_cast<u64>(got.size())));
+    rep().count("scans_with_scratch_accounting");
     *calls_after_halt = after;
     return got;
   }
